@@ -294,6 +294,8 @@ func judgeSlashing(r *ev.Run, cr *chaosRun) bool {
 		r.Violation(key, fmt.Sprintf("case %d height %d: %s", cr.Idx, h, what), map[string]interface{}{"case": fmt.Sprint(cr.Idx), "height": h, "block_txs": cr.ledgerAt(h), "script": saveScript(r, cr)})
 	}
 	slashes, capped, unjailOK, jailings := 0, 0, 0, 0
+	deadline := map[string]int64{}       // node -> end of its current jail period (unix ns), as set when it was jailed
+	editedSinceJail := map[string]bool{} // node had an accepted edit-stake while jailed
 	bl := cr.Res.Blocks()
 	for i := 1; i < len(bl); i++ {
 		prev, s := bl[i-1], bl[i]
@@ -325,6 +327,11 @@ func judgeSlashing(r *ev.Run, cr *chaosRun) bool {
 			if !p.Jailed && c.Jailed {
 				jailings++
 				r.Count("jailings_in_beginblock", 1)
+				// the monitor's own record of the jail period: the deadline the code set at the moment of jailing
+				if si := b.PosIdx.SignInfo[a]; si != nil && si.JailedUntil > 0 {
+					deadline[a] = si.JailedUntil
+					delete(editedSinceJail, a)
+				}
 			}
 		}
 		ds := new(big.Int).Sub(monitor.SupplyOf(b), monitor.SupplyOf(prev))
@@ -373,6 +380,11 @@ func judgeSlashing(r *ev.Run, cr *chaosRun) bool {
 		}
 		// (d) accepted unjails
 		for _, m := range cr.ledgerAt(s.Height) {
+			if m.Kind == "node_edit" && m.I < len(v.txs) && v.txs[m.I].Txs[0].Code == 0 {
+				if _, jailedNow := deadline[m.Target]; jailedNow {
+					editedSinceJail[m.Target] = true
+				}
+			}
 			if m.Kind != "node_unjail" || m.I >= len(v.txs) || v.txs[m.I].Txs[0].Code != 0 {
 				continue
 			}
@@ -397,9 +409,26 @@ func judgeSlashing(r *ev.Run, cr *chaosRun) bool {
 			}
 			if si := pre.PosIdx.SignInfo[m.Target]; si != nil && s.Time*1e9 < si.JailedUntil {
 				viol("unjail/accepted-before-jail-period-ended", fmt.Sprintf("unjail of %s accepted at block time %d s, jailed until %d ns", m.Target, s.Time, si.JailedUntil), s.Height)
+			} else if dl, ok := deadline[m.Target]; ok && s.Time*1e9 < dl {
+				// the stored deadline no longer says so, but the jail period that began when the node was jailed has not passed
+				stored := int64(-1)
+				if si != nil {
+					stored = si.JailedUntil
+				}
+				key := "unjail/accepted-before-jail-period-ended/stored-deadline-lost"
+				if editedSinceJail[m.Target] {
+					key += "/after-edit-stake-while-jailed"
+				}
+				viol(key, fmt.Sprintf("unjail of %s accepted at block time %d s; it was jailed until %d ns when the jail began, the stored signing info now says %d", m.Target, s.Time, dl, stored), s.Height)
 			}
 			if !n.Jailed {
 				viol("unjail/accepted-for-unjailed-node", fmt.Sprintf("unjail of %s accepted although it was not jailed", m.Target), s.Height)
+			}
+		}
+		for a := range deadline { // a jail period ends when the node is seen unjailed (or gone) after a block
+			if n, ok := s.Nodes[a]; !ok || !n.Jailed {
+				delete(deadline, a)
+				delete(editedSinceJail, a)
 			}
 		}
 	}
